@@ -6,6 +6,10 @@ import OV.Gen.C16Registry
 Property theorems only.  Model: `OV.Model.C16Bind`; lemmas: `OV.Lemmas.C16Bind`; the table
 `OV.Gen.C16.registry` is regenerated on every run by `harness/extract_registry.py` from
 `get_torchlib_ops()` of `/repo` and the operator schemas of the installed PyTorch.
+
+Not covered by any theorem here: the property's clause "every scripted function's FunctionProto passes the ONNX checker"
+(per-run oracle `onnx.checker.check_function` in `harness/c16.py`), and that the names `waived` marks `.undefinedOp` are
+really undefined (per-run `_get_overload`); table theorems bound a row's defects from above only.
 -/
 namespace OV.Props.C16
 open OV.C16
@@ -1382,7 +1386,10 @@ open OV.Gen.C16
 
 /-- Open findings on the unchanged tree (reproduced on the real code, `known_findings.d/C16.json`): for
 each listed name, exactly the defects it is known to have.  Anything else — another defect on a listed
-row, any defect on an unlisted row — falsifies `registry_binds_partial`. -/
+row, any defect on an unlisted row — falsifies `registry_binds_partial`.
+NB: the key is the qualified name only, so `"aten::mean"` also covers the *complex* `aten::mean` row (no defect today, fixed
+by c40ec0b): 9 rows, not 8, have `waived e.qualified ≠ []` and are outside `registry_binds_partial`, `registry_binds` and
+`registry_omitted_defaults`, and a `kwBound` defect on the complex row would be tolerated by `rowWithin`. -/
 def waived : String → List Defect
   -- C16-undefined-overload: PyTorch defines no such overload
   | "aten::getitem" => [.undefinedOp]
@@ -1518,7 +1525,9 @@ theorem registry_defaults_agree : ∀ e ∈ registry,
 
 /-- **`registry_binds_partial`** (table theorem over the registry as it is *now*): every row outside the
 listed open findings has a well-formed name, an operator PyTorch defines (or a library that is not
-installed), and `bindsOk`. -/
+installed), and `bindsOk`.  Hypotheses: `waived e.qualified = []` (9 rows excluded, see `waived`); the `bindsOk` part also
+`e.res ≠ .lib_absent` — vacuous today (no such row), but on a machine without torchvision it would excuse every
+`torchvision::*` row from the binding statement without any check. -/
 theorem registry_binds_partial : ∀ e ∈ registry, waived e.qualified = [] →
     nameOkCodes e.qcodes = true ∧ e.res ≠ .undefined ∧
     (e.res ≠ .lib_absent → bindsOk e.mode e.aten e.sig = true) := by
@@ -1548,7 +1557,8 @@ theorem registry_binds_partial : ∀ e ∈ registry, waived e.qualified = [] →
     · simp at h2
 
 /-- **`registry_binds`** = table ∘ general theorem: for every registered overload outside the open
-findings whose operator resolves, *every* conforming call binds right through the exporter's binder. -/
+findings whose operator resolves, *every* conforming call binds right through the exporter's binder.  (Not all rows: the
+hypotheses `waived e.qualified = []` and `e.res ≠ .lib_absent` are those of `registry_binds_partial`.) -/
 theorem registry_binds : ∀ e ∈ registry, waived e.qualified = [] → e.res ≠ .lib_absent →
     ∀ c, Conforms e.aten c → ∃ b, bind e.mode e.sig c = .ok b ∧ BoundRight e.mode e.aten e.sig c b := by
   intro e he hw hla c hc
@@ -1704,7 +1714,7 @@ theorem registry_outsideK_exact : ∀ e ∈ registry,
   exact h.2
 
 /-- **`registry_binds_by_keyword`** = table ∘ `bind_ok_sound_by_keyword`: for every registered overload not
-listed in `outsideK` (505 of 554 rows), every call of the wide model — positional schema arguments passed
+listed in `outsideK` (hypothesis `outsideK … = []`: 505 of 554 rows today), every call of the wide model — positional schema arguments passed
 by position or by keyword — is bound right by the exporter's binder. -/
 theorem registry_binds_by_keyword : ∀ e ∈ registry, outsideK e.qualified e.isComplex = [] →
     ∀ c, ConformsK e.aten c → ∃ b, bind e.mode e.sig c = .ok b ∧ BoundRightK e.mode e.aten e.sig c b := by
@@ -1733,7 +1743,8 @@ theorem registry_omitted_defaults_by_keyword : ∀ e ∈ registry, outsideK e.qu
 theorem registry_unique : (registry.map Entry.key).Nodup :=
   nodup_of_nodupN_natKey _ (by decide +kernel)
 
-/-- `registrySize` rows were extracted (guards against a truncated table). -/
+/-- `registrySize` rows were extracted (guards against a truncated table).  `registrySize` is itself generated (554 today): the
+row count quoted in the notes is not a Lean literal, and neither is the count of judged default pairs (a harness counter). -/
 theorem registry_size : registry.length = registrySize := by decide +kernel
 
 /-- The full statement is refuted on a literal copy of the `torchvision::roi_pool` row as it still is in the
